@@ -182,6 +182,14 @@ fn amount_pairs(t: &dyn QtyOps, ua: usize, ub: usize, cfg: &Cfg, rng: &mut Rng, 
         }
     }
     v.push((zero(), zero()));
+    // a zero on one side only (the sum must still carry the left operand's unit, comparisons the right sign)
+    let nz = base[1 + salt % (base.len() - 1)];
+    v.push((zero(), nz));
+    v.push((nz, zero()));
+    if cfg.thorough {
+        v.push((zero(), -nz));
+        v.push((-nz, zero()));
+    }
     for _ in 0..(if cfg.thorough { 6 } else { 1 }) {
         v.push((rnd_amount(rng, -10, 30), rnd_amount(rng, -10, 30)));
     }
@@ -429,10 +437,21 @@ pub fn c13_rates(reg: &Registry, cfg: &Cfg, out: &mut Out) {
                 for j in 0..nn {
                     let ta = base[1 + (salt * 7 + j) % (base.len() - 1)];
                     // per-multiples that are not powers of ten, and one
-                    let pms = [small_int(1), from_parts_dec(false, 10, -1), small_int(100), from_parts_dec(false, 25, -1), small_int(7), small_int(3600)];
+                    let pms = [small_int(1), from_parts_dec(false, 10, -1), small_int(-4), from_parts_dec(true, 25, -1), small_int(100), from_parts_dec(false, 25, -1), small_int(7), small_int(3600)];
                     let pm = pms[(salt + j) % pms.len()];
                     for kind in ["new", "vals", "recip", "fmt"] {
                         out.ev("Rate", (rp.f)(kind, ta, tu, pm, pu, zero(), 0));
+                    }
+                    if j == 0 && (salt % 3 == 0 || cfg.thorough) {
+                        // very small / very large per multiples and term amounts (f64 totality is unconditional)
+                        let tiny = from_parts_dec(false, 5, -16);
+                        let huge = from_parts_dec(false, 3, 15);
+                        for (t2, p2) in [(ta, tiny), (tiny, pm), (huge, tiny), (ta, huge)] {
+                            for kind in ["rxq", "qxr"] {
+                                out.ev("Rate", (rp.f)(kind, t2, tu, p2, pu, tiny, pu));
+                            }
+                            out.ev("Rate", (rp.f)("qdr", t2, tu, p2, pu, huge, tu));
+                        }
                     }
                     // operands in every unit of the per / term quantity
                     for qu in 0..pt.n_units() {
